@@ -118,6 +118,7 @@ type pathCtx struct {
 	locks       map[*value]bool
 	rlocks      map[*value]int
 	wwait       map[*value]int
+	pools       map[*value][]value
 	os          *osState
 	uniq        map[int32]uniqRes
 }
